@@ -1,5 +1,8 @@
 import Indi.Properties.C11
+import Indi.Properties.C11b
 #print axioms Indi.Buf.C11_bounded
 #print axioms Indi.Buf.C11_genuine
 #print axioms Indi.Buf.C11_retained_suffix
 #print axioms Indi.Buf.C11_junk_delivers_nothing
+#print axioms Indi.Buf.C11_long_junk_transparent
+#print axioms Indi.Buf.C11_resync
